@@ -996,6 +996,18 @@ def sym_method(I, obj, name, args, kwargs):
         if name == "decode":
             return mk_str([FmtInt(term(x) if not isinstance(x, int) else z3.IntVal(x), "02x", width=2) for x in obj.b.items])
         raise X.Unsupported(f"hexlify(...).{name}")
+    if isinstance(obj, SBytes) and name in ("startswith", "endswith"):
+        prefixes = args[0] if isinstance(args[0], tuple) else (args[0],)
+        acc = False
+        for pre in prefixes:
+            if not isinstance(pre, bytes):
+                raise X.Unsupported("startswith with a symbolic prefix")
+            if len(pre) > len(obj.items):
+                continue
+            its = obj.items[:len(pre)] if name == "startswith" else obj.items[len(obj.items) - len(pre):]
+            c = lift_bool(z3.And([term(x) == b for x, b in zip(its, pre)])) if pre else True
+            acc = or_(acc, c)
+        return acc
     if isinstance(obj, SBytes):
         if name == "decode":
             raise X.Unsupported("decode of symbolic bytes")
